@@ -60,6 +60,8 @@ pub struct CoCase {
     pub source: SourceKind,
     /// Co: the stream's script (Yield = item). Vec: only the number of Yields counts.
     pub src_script: Vec<Step>,
+    /// the source stream reports an exact size_hint
+    pub src_hint: bool,
     pub stack: Vec<Adapter>,
     pub terminal: Terminal,
     /// work[stage][item]: script of the future the closure of `stage` returns
@@ -109,7 +111,11 @@ impl CoCase {
             Step::Panic => "PANIC".into(),
         };
         let src = match self.source {
-            SourceKind::Co => format!("stream<{}>.co()", self.src_script.iter().map(step).collect::<Vec<_>>().join(" ")),
+            SourceKind::Co => format!(
+                "stream<{}{}>.co()",
+                self.src_script.iter().map(step).collect::<Vec<_>>().join(" "),
+                if self.src_hint { " exact-size_hint" } else { "" }
+            ),
             SourceKind::Vec => format!("vec[{}].into_co_stream()", self.n_items()),
         };
         let mut s = src;
@@ -235,7 +241,7 @@ impl WorkCore {
             let script = item.and_then(|i| w.co.scripts.get(stage).and_then(|s| s.get(i))).map(|l| l.script.clone()).unwrap_or_default();
             let idx = w.co.works.len();
             w.tick();
-            let id = w.new_node(top, idx, NodeKind::Leaf { flavor, script, pos: 0, always: false });
+            let id = w.new_node(top, idx, NodeKind::Leaf { flavor, script, pos: 0, always: false, hint: false });
             w.nodes[id].item = item;
             if w.trace_on {
                 let p = w.path(id);
@@ -380,7 +386,7 @@ fn build_case(case: &CoCase, top: NodeId) -> BoxF {
     match case.source {
         SourceKind::Co => {
             let src = world::with(|w| {
-                let id = w.new_node(Some(top), 0, NodeKind::Leaf { flavor: Flavor::S, script: case.src_script.clone(), pos: 0, always: false });
+                let id = w.new_node(Some(top), 0, NodeKind::Leaf { flavor: Flavor::S, script: case.src_script.clone(), pos: 0, always: false, hint: case.src_hint });
                 w.co.src = Some(id);
                 id
             });
@@ -882,7 +888,7 @@ fn gen_work(c: &mut Cur, p: &Profile, fallible: bool) -> LeafSpec {
     } else {
         script.push(Step::Yield(!(fallible && c.coin(p.p_err))));
     }
-    LeafSpec { script, always: false }
+    LeafSpec { script, always: false, hint: false }
 }
 
 pub fn gen_co_case(bytes: &[u8], cp: &CoProfile) -> CoCase {
@@ -980,12 +986,13 @@ pub fn gen_co_case(bytes: &[u8], cp: &CoProfile) -> CoCase {
             }
         }
     }
+    let src_hint = source == SourceKind::Co && c.coin(100);
     let mut sp = p.clone();
     sp.p_drop = cp.p_drop;
     let schedule = gen_schedule(&mut c, &sp);
     let no_drain = c.coin(p.p_nodrain);
     let drain: Vec<u8> = (0..32).map(|_| c.byte()).collect();
-    CoCase { source, src_script, stack, terminal, work, schedule, drain, no_drain }
+    CoCase { source, src_script, src_hint, stack, terminal, work, schedule, drain, no_drain }
 }
 
 // ------------------------------------------------------------------ engine
